@@ -12,6 +12,9 @@ NOTE_A = ('World A glue mirrors Loader; virtual clock; canonical key argument '
 NOTE_B = ('Fake ZooKeeper (mc/fakezk.py, semantics pinned by selftest) is the '
           'trusted base; everything above the kazoo client API is real code; '
           'virtual clock; 3 servers, <=4 instances.')
+TECH_BOUNDX = ('bounded-exhaustive input enumeration of the implementation '
+               'against a reference model (boundx, 16 forked workers; no '
+               'sampling, no solver)')
 TECH_STATEX = ('explicit-state model checking of the implementation (BFS over '
                'event histories, replay-built states, canonical dedup, '
                'recomputed-from-leaves oracle)')
@@ -64,6 +67,120 @@ CHECKS = {
               'load_model() on a copy of the stored tree and is compared '
               'with every record under a healthy server.', '5/C11',
               note=NOTE_B),
+    'C06': _s('Bounded-exhaustive sweep of the real Allocation/Cell code: every '
+              'forest shape of <=3 (quick) / <=4 (thorough) allocation nodes, '
+              'depth <=3, built as Loader.load_allocations builds them, x node '
+              'menus (reserved, rank, rank adjustment, utilisation cap) x every '
+              'population of <=3 / <=4 instances (priority, demand, running/'
+              'pending) in every arrival order, as a stated list of complete '
+              'product slices; both Allocation.utilization_queue output and '
+              'the order/final_rank handed to Cell._find_placements by a real '
+              'Cell.schedule() are judged against an integer reference written '
+              'from the statement; a second sweep drives Loader.'
+              'load_allocations/load_app/find_assignment.', '5/C06',
+              note='virtual clock gives distinct increasing global_order; '
+                   'priority-0 = infinite utilisation by definition; boost '
+                   'clause one-directional; integer menus; full 36x24 product '
+                   'only for <=2 nodes, reduced menus (named in evidence) above',
+              tech=TECH_BOUNDX, engine='boundx'),
+    'C12': _s('Bounded-exhaustive sweep of the real EventMgr._synchronize/'
+              '_cache + fs.write_safe on a temp root with an in-memory '
+              'ZooKeeper: full product of per-slot menus (prior cache file, '
+              'listed or not, manifest, placement node) x check_existing, 2 '
+              '(quick) / 3 (thorough) slots; every FS step of the write path '
+              '(mkstemp, each stream write incl. torn writes, fchmod, close, '
+              'replace, unlink) is failed (OSError) and killed (directory '
+              'snapshot), each followed by a restart and re-sync.', '5/C12',
+              note='fake ZooKeeper; st_ctime of cache files assigned by the '
+                   'harness; process-kill semantics (no power-loss/fsync '
+                   'model); rename/unlink atomic; only non-dot names judged',
+              tech='bounded-exhaustive input sweep x crash/fault-point '
+                   'enumeration of the implementation (FS fault injection at '
+                   'the os/tempfile/io names inside treadmill.fs)',
+              engine='boundx+crashx'),
+    'C14': _s('Explicit-state BFS over allocate/release/collect/owner-appears/'
+              'disappears sequences of 2 (quick) / 3 (thorough) owners on the '
+              'real VipMgr (/30, /29), RuleMgr, EndpointsMgr and '
+              'NetworkResourceService on temp directories against a dict '
+              'reference entry->owner; plus exhaustive exploration (system-'
+              'call granularity, preemption bounds in evidence) of all '
+              'interleavings of two processes on one RuleMgr/EndpointsMgr '
+              'directory, each audited syscall by syscall and required to '
+              'match some serial order of the reference.', '5/C14',
+              note='netdev/iptables/subproc recorders; owner exists iff its '
+                   'path exists; GC/unlink_all = sequences of atomic per-entry '
+                   'steps; a refusal is judged only for callers that exist; '
+                   '<=3 owners, <=3 entries',
+              tech='explicit-state model checking of the implementation + '
+                   'stateless interleaving exploration with iterative '
+                   'preemption bounding; reference-model and linearizability '
+                   'oracles', engine='statex+ilv'),
+    'C15': _s('Bounded-exhaustive sweep of the real encoders/decoders over '
+              'complete products of finite menus (rule-file names; unique '
+              'names and a lattice of 13-char ids; every trace event class '
+              'through real publish/post and TraceLoop parsing; dict/list '
+              'ZooKeeper payloads to depth 3; Application/CellAllocation/'
+              'Partition LDAP entries incl. all 2^19 field subsets, keyed '
+              'lists and the create/update/get path on an in-memory entry '
+              'store); round trip, idempotence and sweep-wide injectivity.',
+              '5/C15',
+              note='"," and "/" reserved by the node-name format; None == "" '
+                   'is the only trace normalisation; unique ids: a stated '
+                   'lattice of seeds, not the full 77-bit range; in-memory '
+                   'store stands in for ldap3 and returns optioned subtypes '
+                   'when the plain attribute is requested',
+              tech=TECH_BOUNDX + ' with sweep-wide collision detection',
+              engine='boundx'),
+    'C16': _s('Bounded-exhaustive sweep over manifests (endpoint lists x '
+              'ports x infra, ephemeral tcp/udp 0-2, passthrough menus, vring, '
+              'shared_network, shared_ip, environments, 3 enumerated port '
+              'orders): real allocate_network_ports, _unshare_network, then '
+              '_cleanup_network (+_cleanup_ephemeral_ports), finish again, on '
+              'a host holding a foreign container\'s registrations; rules dir, '
+              'endpoints dir and ip-sets must equal the pre-start state; plus '
+              'saturated BFS over start/finish of two containers.', '5/C16',
+              note='only the network slices of run and finish are executed; '
+                   'ipset CLI interpreted on Python sets; fake socket; no '
+                   'firewall plugin installed',
+              tech='bounded-exhaustive input enumeration against a before/'
+                   'after snapshot oracle + explicit-state BFS over container '
+                   'start/finish histories', engine='boundx+statex'),
+    'C18': _s('Bounded-exhaustive sweep of the real trace archiver '
+              '(cleanup_trace/cleanup_finished/cleanup_*_history, '
+              'cleanup_server_trace, upload_batch/download_batch/cleanup) on '
+              'an in-memory ZooKeeper with a virtual clock over all '
+              'populations of 2 shards, 2-3 instances, 0-3 events aged around '
+              'the expiry, batch sizes, existing snapshots; every run is '
+              'killed before each ZooKeeper write in turn and re-run; '
+              'snapshots are inflated and opened with sqlite3.', '5/C18',
+              note='fake ZooKeeper; atomic ordered writes; one archiver '
+                   'session; get_children order is a menu; payloads of trace '
+                   'events not compared (upload stores data=None by design)',
+              tech='bounded-exhaustive input sweep x crash-point enumeration '
+                   'at every ZooKeeper write of the implementation',
+              engine='boundx+crashx'),
+    'C19': _s('Bounded-exhaustive sweep of the real reservation.create/update '
+              '(undecorated) -> _check_capacity/_calc_free/_calc_free_traits/'
+              '_check_limit against a fake admin store: partition records with '
+              '0-2 trait limits, sets of <=2/3 existing reservations incl. '
+              'distractors, replaced or new id, request traits, request sizes '
+              'at/over/under every boundary in K/M/G spellings; plus every '
+              'history of <=3 create/update calls; independent sum oracle.',
+              '5/C19',
+              note='fake store shaped like LDAP from_entry with an and-filter '
+                   'list; __wrapped__ with jsonschema-validated inputs; update '
+                   'judged on the merged record',
+              tech=TECH_BOUNDX, engine='boundx'),
+    'C20': _s('Explicit-state BFS over histories of the real appmonitor.'
+              'reevaluate under the virtual clock with a fake REST client '
+              '(answers ok/NotFound/BadRequest/Validation/other; clock '
+              'advances; instances die/appear; count changed; monitor deleted/'
+              're-created; restart) for all single monitors (count 0-3 x '
+              'policy) and 6 pairs, with drain and convergence continuations '
+              'from every state; reference token bucket.', '5/C20',
+              note='mirrored _run_sync watch glue; scheduled view up to date '
+                   'at every evaluation; fake REST/zk/alert; virtual clock '
+                   'whole seconds', engine='statex'),
 }
 
 NOT_YET = 'check not built yet in this revision (planned, see DESIGN.md section 5)'
@@ -103,10 +220,33 @@ def main():
         'engines': [
             {'name': 'statex', 'path': 'mc/statex.py',
              'serves_properties': [p for p in props if p in CHECKS and
-                                   CHECKS[p][0] == 'statex'],
+                                   'statex' in CHECKS[p][0]],
              'kind_free_text': 'explicit-state BFS over event histories of '
                                'the real implementation, replay-built states, '
-                               'canonical dedup, 16 forked workers'},
+                               'canonical dedup, probe hook (C02/C10/C11), '
+                               'bisimulation spot-check of the key, 16 forked '
+                               'workers'},
+            {'name': 'boundx', 'path': 'mc/boundx.py',
+             'serves_properties': [p for p in props if p in CHECKS and
+                                   'boundx' in CHECKS[p][0]],
+             'kind_free_text': 'bounded-exhaustive sweep of complete finite '
+                               'input products over forked workers'},
+            {'name': 'ilv', 'path': 'mc/ilv.py',
+             'serves_properties': [p for p in props if p in CHECKS and
+                                   'ilv' in CHECKS[p][0]],
+             'kind_free_text': 'greenlet interleaving explorer: stateless DFS '
+                               'over scheduler choices, replayed prefixes, '
+                               'iterative preemption bounding'},
+            {'name': 'crashx', 'path': 'mc/worlds/masterworld.py',
+             'serves_properties': ['C10', 'C12', 'C18'],
+             'kind_free_text': 'crash/fault-point enumeration: every storage '
+                               'write (ZooKeeper) or FS step of a step is cut '
+                               'in turn, the damaged state checked, recovery '
+                               'run and checked'},
+            {'name': 'fakezk', 'path': 'mc/fakezk.py',
+             'serves_properties': ['C09', 'C10', 'C11', 'C12', 'C17', 'C18'],
+             'kind_free_text': 'in-memory ZooKeeper with kazoo client '
+                               'semantics (trusted base, pinned by selftest)'},
         ],
         'checks': checks,
         'not_applicable': [{'property_id': p, 'reason': NOT_YET}
